@@ -318,6 +318,12 @@ def fdLostSegments (off len : Nat) : DM Unit := do
   if (← transmissionMode) = some .ack then
     lostSegmentHandling off len
 
+/-- `offset + len(file_data) > file_size_eof` when the EOF PDU was already received -/
+def sizeErrOf (fse : Option Nat) (endOff : Nat) : Bool :=
+  match fse with
+  | some f => decide (endOff > f)
+  | none => false
+
 /-- `_handle_fd_pdu`, part 4: everything after the `write_data` call (`r` = the exception it raised) -/
 def fdAfterWrite (off : Nat) (data : List UInt8) (r : Option FsErr) : DM Unit := do
   match r with
@@ -330,10 +336,7 @@ def fdAfterWrite (off : Nat) (data : List UInt8) (r : Option FsErr) : DM Unit :=
   | none =>
     modP fun p => { p with fin := { p.fin with fstat := fsRetained } }
     let p ← getP
-    let sizeErr := match p.fileSizeEof with
-      | some fse => decide (off + data.length > fse)
-      | none => false
-    if sizeErr then
+    if sizeErrOf p.fileSizeEof (off + data.length) then
       let fh ← declareFault ccFileSizeError
       if fh ≠ fhIgnore then pure ()
       else modP fun p => { p with progress := max (off + data.length) p.progress }
@@ -446,6 +449,7 @@ def nakSequence (conf : Hdr) (fse maxSegs : Nat) (metadataMissing : Bool) (trk :
 def deferredLostSegmentHandling (env : Env) : DM Unit := do
   let p ← getP
   if !p.deferredActive then pure ()
+  else if p.canceled then pure ()       -- cancelled by the handling of the PDU just received
   else
     match p.remoteCfg, p.fileSizeEof with
     | none, _ => throw .assertionError
